@@ -174,6 +174,19 @@ CHECKS.update({
         ref="DESIGN.md section 2 C08"),
 })
 
+CHECKS.update({
+    "C11": dict(
+        technique="runtime monitoring: reference-model oracle (baseband stream transformed by the specification) on every read; offline "
+                  "history checker (one digest per (reader, offset, n) key) over sequential, multi-threaded (seeded sleep(0) yield "
+                  "injection via sys.monitoring) and Dask-scheduled histories; sys.addaudithook on file opens; reader-state and fd "
+                  "snapshots; failpoints inside read",
+        text="Exploration of inputs, histories and schedules plus crash-point enumeration of read(): 17 reader configurations over 8 "
+             "file sets (sample files and files written by the check: VDIF real/complex, multi-file DADA, DADA Stokes USB/LSB, "
+             "multi-file GUPPI USB/LSB) are read at frame/file-boundary offsets, eagerly and lazily, sequentially, from 2-32 threads and "
+             "through Dask schedulers; every result is compared with the independent model and every key must keep one digest.",
+        ref="DESIGN.md section 2 C11"),
+})
+
 NOT_YET = {}
 
 
